@@ -211,7 +211,7 @@ Section WithH.
   Lemma get_rr_on_tsig_rr : forall (pre : bytes) owner t rr kr rmac now multi count st,
     Valid owner -> NameM.is_absolute owner = true -> tsig_ok t ->
     tsig_rr owner t = Ok rr ->
-    r_pos st = length pre ->
+    r_pos st = length pre -> r_origin st = None ->
     get_rr H (pre ++ rr) kr rmac now multi 3 count (count - 1) st =
       (do ko <- find_key kr owner (t_alg t);
        do ctx' <- (match ko with
@@ -219,9 +219,9 @@ Section WithH.
                    | None => Ok (r_ctx st)
                    end);
        Ok {| r_pos := length (pre ++ rr); r_tsig := Some (owner, t); r_ctx := ctx';
-             r_recs := (3, TSIG, ANY, length pre) :: r_recs st; r_opt := r_opt st |}).
+             r_recs := (3, TSIG, ANY, length pre) :: r_recs st; r_opt := r_opt st; r_origin := None |}).
   Proof.
-    intros pre owner t rr kr rmac now multi count st V A OKt RR P.
+    intros pre owner t rr kr rmac now multi count st V A OKt RR P ON.
     unfold tsig_rr in RR. unfold NameM.to_wire in RR. rewrite A in RR. cbn [bind] in RR.
     destruct (tsig_to_wire t) as [rdw| |] eqn:TW; cbn [bind] in RR; try discriminate.
     destruct (zlen rdw >? 65535) eqn:LR; [discriminate|].
@@ -231,7 +231,7 @@ Section WithH.
     { apply in_u16_iff. rewrite Z.gtb_ltb in LR. apply Z.ltb_ge in LR. unfold zlen in *. lia. }
     rewrite (u16_be 250), (u16_be 255), u32_be0, (u16_be (zlen rdw)) by (assumption || reflexivity).
     set (on := NameM.wire_labels false owner).
-    unfold get_rr. rewrite P.
+    unfold get_rr. rewrite P, ON.
     rewrite (get_name_mid owner pre (be 2 250 ++ be 2 255 ++ be 4 0 ++ be 2 (zlen rdw) ++ rdw) _ V A)
       by (unfold on; rewrite !app_length; lia).
     cbn [bind fst snd]. fold on.
